@@ -140,14 +140,16 @@ type Generated struct {
 	Files      map[string]string // relative file name -> content
 	GenError   string            // plug-in error (C16)
 	FMFiles    []string
+	FMToGen    []string // file_to_generate of the request handed to protoc-gen-fastmarshal
 	FMResponse *pluginpb.CodeGeneratorResponse
 }
 
-var gogoWKT = "Mgoogle/protobuf/timestamp.proto=github.com/gogo/protobuf/types,Mgoogle/protobuf/duration.proto=github.com/gogo/protobuf/types," +
+var gogoWKT = "Mgoogle/protobuf/descriptor.proto=github.com/gogo/protobuf/protoc-gen-gogo/descriptor,Mgoogle/protobuf/timestamp.proto=github.com/gogo/protobuf/types,Mgoogle/protobuf/duration.proto=github.com/gogo/protobuf/types," +
 	"Mgoogle/protobuf/struct.proto=github.com/gogo/protobuf/types,Mgoogle/protobuf/wrappers.proto=github.com/gogo/protobuf/types,Mgoogle/protobuf/any.proto=github.com/gogo/protobuf/types"
 
 // protogen (used by protoc-gen-fastmarshal) needs the package *name* too when several files map to one import path
-var gogoWKTfm = strings.ReplaceAll(gogoWKT, "github.com/gogo/protobuf/types", "github.com/gogo/protobuf/types;types")
+var gogoWKTfm = strings.ReplaceAll(strings.ReplaceAll(gogoWKT, "github.com/gogo/protobuf/types", "github.com/gogo/protobuf/types;types"),
+	"github.com/gogo/protobuf/protoc-gen-gogo/descriptor", "github.com/gogo/protobuf/protoc-gen-gogo/descriptor;descriptor")
 
 // FMParam is the parameter string for protoc-gen-fastmarshal.
 func (v Variant) FMParam() string {
@@ -162,11 +164,18 @@ func (v Variant) FMParam() string {
 	} else {
 		ps = append(ps, api2)
 	}
-	if v.PerMessage {
+	// boolean options are spelled out in both directions: =false must mean "off", like leaving the option out
+	switch {
+	case v.PerMessage:
 		ps = append(ps, "filepermessage=true")
+	case v.Runtime == "gogo":
+		ps = append(ps, "filepermessage=false")
 	}
-	if v.Unsafe {
+	switch {
+	case v.Unsafe:
 		ps = append(ps, "enableunsafedecode=true")
+	case v.Runtime != "gogo":
+		ps = append(ps, "enableunsafedecode=false")
 	}
 	return strings.Join(ps, ",")
 }
@@ -211,6 +220,10 @@ func Generate(pl *Plugins, s *Schema, v Variant) *Generated {
 	}
 	if v.FM {
 		req.FileToGenerate = []string{fileName} // the imported file is somebody else's: not generated
+		if s.Dep != nil && s.GenDep {
+			req.FileToGenerate = toGen // both files in one request, the imported one first
+		}
+		g.FMToGen = append([]string{}, req.FileToGenerate...)
 		req.Parameter = proto.String(v.FMParam())
 		resp, err := RunPlugin(pl.FastMarshal, req)
 		if err != nil {
